@@ -1,12 +1,14 @@
 mod codec;
 mod hlc;
 mod model;
+mod replay_merge;
 mod replay_ops;
 
 fn main() {
     let cmd = std::env::args().nth(1).unwrap_or_default();
     match cmd.as_str() {
         "replay-ops" => replay_ops::main(),
+        "replay-merge" => replay_merge::main(),
         "replay-hlc" => hlc::replay(),
         "record-hlc" => hlc::record(),
         "replay-codec" => codec::replay(),
